@@ -1790,6 +1790,8 @@ static int asyncService_setupAsyncClient(KSI_AsyncService *service, const char *
 	}
 
 	res = service->uriSplit(uri, &schm, &ksi_user, &ksi_pass, &host, &port, &path, &query, &fragment);
+	/* Running out of memory is not a property of the URI. */
+	if (res == KSI_OUT_OF_MEMORY) goto cleanup;
 	if (res != KSI_OK) unableToParse = 1;
 
 	c = service->getClientByUriScheme(schm, &replace);
